@@ -188,7 +188,9 @@ class WriteMultipleCoilsRequest(ModbusRequest):
         '''
         self.address, count, self.byte_count = struct.unpack('>HHB', data[0:5])
         values = unpack_bitstring(data[5:])
-        self.values = values[:count]
+        # keep the announced quantity of outputs even when fewer data bytes
+        # were sent, so that execute() sees the inconsistent byte count
+        self.values = (values + [False] * (count - len(values)))[:count]
 
     def execute(self, context):
         ''' Run a write coils request against a datastore
